@@ -448,8 +448,39 @@ def o204(ctx):
         raise Unsupported("cap counter of the candidate kernels not found")
 
 
+def o205(ctx):
+    """the voxel size the pipeline measures with is the spacing stored in the segmentation's header, in nm (Angstrom / 10), digit for digit:
+    thickness = distance in voxels x voxel size, so a rounded voxel size is a relative error on every thickness"""
+    q = "memthick.read_segmentation"
+    m, fn = ctx.prog.func(q)
+    ctx.touched(q)
+    it = Interp(ctx.prog)
+    r = it.run(q, [K("seg.mrc")], {})
+    if not (isinstance(r.ret, Seq) and len(r.ret.items) >= 2):
+        raise Unsupported("read_segmentation does not return (segmentation, voxel_size, ...)", fn)
+    vs = to_term(r.ret.items[1])
+    hdr = [n for n in tm.walk(vs) if n.op == "call" and n.args[0] == ".x" and tm.has_call(n, ".voxel_size")]
+    if not hdr:
+        raise Unsupported(f"voxel size returned by read_segmentation does not come from the header: {tm.show(vs)[:100]}", fn)
+    got = tm.subst(vs, {hdr[0]: sym("spacing")})
+    v = tm.equivalent(got, mk("div", sym("spacing"), const(10.0)), samplers={"spacing": lambda g: float(g.choice([7.84, 13.48, 10.68, 8.0, 3.3712, 21.001, 1.0]))},
+                      n=14, tol=1e-12, seed_tag=q)
+    ctx.count(1, {"voxel size": tm.show(vs)[:120], "equals header spacing / 10": bool(v)})
+    if not v:
+        ctx.finding(q, "voxel size", f"the voxel size must be the header's spacing in nm (Angstrom / 10) as it is; the code returns {tm.show(got)[:100]}: "
+                    "7.84 A becomes 0.78 nm when rounded to two decimals, and every thickness is off by that ratio", fn, m, witness=v.witness)
+    data = to_term(r.ret.items[0])
+    ctx.count(1)
+    core = data
+    while core.op == "call" and core.args[0] in (".copy", "numpy.array", "numpy.asarray", "numpy.ascontiguousarray") and len(core.args) >= 2:
+        core = core.args[1]
+    if not (core.op == "call" and core.args[0] == ".data"):
+        ctx.finding(q, "segmentation", f"the labels must be the file's data as stored; the code returns {tm.show(data)[:100]}", fn, m)
+
+
 def _obligations():
     return [
+        Obligation("O20.5", "read_segmentation: voxel size = header spacing / 10 (nm) unrounded, labels as stored", o205, floor=2),
         Obligation("O20.4", "the per-source cap counts accepted candidates only (counter incremented where a candidate is recorded)", o204, floor=2),
         Obligation("O20.1", "all three kernels accept a candidate iff it is ahead of the source and inside the cone of half-angle max_angle", o201, floor=300),
         Obligation("O20.2", "candidate ball centred on the source points with radius max_thickness/voxel_size; row-space typing; 2to1 swap", o202, floor=16),
